@@ -17,7 +17,28 @@ func Harness_C16_dispatchers_reset() {
 	}
 	ds := NewDispatchers(cfg1)
 	before := map[string]*dispatcher{"a": ds.Get("a"), "b": ds.Get("b")}
+	// while the update is applied (observed after every change of the registry's sync.Map): a cache that
+	// stays configured is found, as the same dispatcher, at every moment — requests keep being served
+	// and cached entries are retained throughout, not only at the end
+	in2 := func(n string) bool {
+		for _, o := range cfg2 {
+			if o.Name == n {
+				return true
+			}
+		}
+		return false
+	}
+	lost := 0
+	verifOnSyncMapWrite(func() {
+		for _, n := range names {
+			if before[n] != nil && in2(n) && ds.Get(n) != before[n] {
+				lost++
+			}
+		}
+	})
 	ds.Reset(cfg2)
+	verifOnSyncMapWrite(nil)
+	verifAssert("C16.caches.survivor-available-throughout-reset", lost == 0)
 	for _, n := range names {
 		in2 := false
 		for _, o := range cfg2 {
